@@ -839,6 +839,13 @@ def o_C14(tr: Trace) -> Fails:
                             f.add(f"C14:abandon-not-idle:{tr.kinds[h]}:{cond}", {"cb": x}, e.idx)
                         continue
                     f.add(f"C14:wrong-callback-kind:{tr.kinds[h]}:{cond}:{kind}-want-{want}", {"cb": x}, e.idx)
+                if kind == "cancel" and tr.kinds[h] == "dst" and e.st.ok and e.exc is None and want == "cancel" \
+                        and e.st.state == "BUSY" and e.st.step in (
+                            "RECEIVING_FILE_DATA", "RECV_FILE_DATA_WITH_CHECK_LIMIT_HANDLING",
+                            "WAITING_FOR_METADATA", "WAITING_FOR_MISSING_DATA"):
+                    # notice of cancellation: the transaction proceeds to its completion, it does not go
+                    # on receiving
+                    f.add(f"C14:cancel-without-effect:{tr.kinds[h]}:{cond}:{e.st.step}", {"cb": x}, e.idx)
                 if kind == "abandon" and e.st.ok and (e.st.state != "IDLE" or e.exc is not None):
                     f.add(f"C14:abandon-not-idle:{tr.kinds[h]}:{cond}:{e.exc}", {"cb": x, "out": e.out[:200]}, e.idx)
                 if e.exc is not None and e.exc not in PROTOCOL_EXC:
